@@ -1546,7 +1546,7 @@ fn chord_texts() -> Vec<String> {
 
 // ----- sizes -----
 
-const SIZE_LATTICE: [usize; 5] = [0, 1, 2, 65535, usize::MAX];
+const SIZE_LATTICE: [usize; 11] = [0, 1, 2, 65535, (1 << 24) + 1, (1 << 32) + 1, (1 << 53) - 1, 1 << 53, (1 << 53) + 1, usize::MAX - 1, usize::MAX];
 
 fn eval_size(h: usize, w: usize) -> Bad {
     let size = Size::new(h, w);
